@@ -54,6 +54,10 @@ func (s *Schema) RemoveType(typ string) {
 	for i := range s.Types {
 		if s.Types[i].Name == typ {
 			s.Types = append(s.Types[0:i], s.Types[i+1:]...)
+
+			// Names are unique and the slice just got shorter than the
+			// range being iterated over.
+			return
 		}
 	}
 }
